@@ -72,6 +72,29 @@ def cases_1d(rng, tier):
                        if (arr.any() or out.startswith('IValueErr')) else None)
                 cs.add(term, {'mode': mode, 'direction': d, 'arr': arr.tolist(), 'dtype': dt.__name__,
                               'newshp': m, 'offset': off, 'pad_const': c}, key)
+    # complex dtype: real and imaginary parts are resized separately (the constant goes to the real part)
+    from odl.util.numerics import resize_array
+    for mode, d in itertools.product(MODES, DIRS):
+        for _ in range(6 if tier == 'quick' else 40):
+            n, m = rng.randint(0, nmax), rng.randint(0, mmax)
+            off = rng.randint(0, abs(m - n))
+            re = np.array([rng.randint(-9, 9) for _ in range(n)], dtype=float)
+            im = np.array([rng.randint(-9, 9) for _ in range(n)], dtype=float)
+            c = rng.choice([0, 2, -1]) if (mode == 'constant' and d == 'forward') else 0
+            try:
+                r = resize_array(re + 1j * im, (m,), offset=off, pad_mode=mode, pad_const=c, direction=d)
+                outs = ('IOk %s' % C.qs(r.real.tolist()), 'IOk %s' % C.qs(r.imag.tolist()))
+            except ValueError:
+                outs = ('IValueErr', 'IValueErr')
+            except Exception:
+                outs = ('IOtherErr', 'IOtherErr')
+            for part, arr, cc, o in (('re', re, c, outs[0]), ('im', im, 0, outs[1])):
+                term = ('{| k_strict := %s; k_m := %s; k_d := %s; k_c := %s; k_cast := true; k_arr := %s; k_nout := %s; '
+                        'k_off := %s; k_out := %s |}'
+                        % (C.b(strict), T.PMODE[mode], DIRK[d], C.q(cc), C.qs(arr.tolist()), C.nat(m), C.z(off), o))
+                cs.add(term, {'mode': mode, 'direction': d, 'arr': arr.tolist(), 'dtype': 'complex/' + part,
+                              'newshp': m, 'offset': off, 'pad_const': cc},
+                       (mode, d, n, m, off, cc, 'complex', part, tuple(arr.tolist())) if arr.any() or o == 'IValueErr' else None)
     return cs
 
 
